@@ -929,4 +929,38 @@ theorem shapes_match_descriptors :
         (t.addOp != .accumulate || ((addShape t.name).upd == .accumulate && ((addShape t.name).rFresh == .value) == t.addFreshNew))) = true := by
   decide
 
+/-! ### configuration setters (`SetMax`, `SetNullValue`): every statement of the method, nothing else allowed -/
+
+/-- `this.max = max` | `this.NONE = none` | `return this`; anything else (a resize, a loop, …) is `.unknown` -/
+inductive CSt
+  | assignMax | assignNone | retThis | unknown
+  deriving DecidableEq, Repr
+
+/-- the setter's statements on the model: only `.assignMax` touches the container, and only its bound -/
+def runC (n : Nat) : List CSt → LMap K V → Option (LMap K V)
+  | [], _ => none
+  | .assignMax :: r, m => runC n r { m with max := n }
+  | .assignNone :: r, m => runC n r m
+  | .retThis :: _, m => some m
+  | .unknown :: _, _ => none
+
+def canonSetMax : List CSt := [.assignMax, .retThis]
+def canonSetNull : List CSt := [.assignNone, .retThis]
+
+/-- `SetMax(n)` as written is the model's `setMax n`: the bound changes, table / order list / count / threshold do not -/
+theorem canonSetMax_correct (m : LMap K V) (n : Nat) :
+    runC n canonSetMax m = some (LMap.step hash thr d m (.setMax n)).1 ∧
+    ∀ m', runC n canonSetMax m = some m' → m'.tab = m.tab ∧ m'.order = m.order ∧ m'.count = m.count ∧ m'.threshold = m.threshold ∧ m'.max = n := by
+  refine ⟨rfl, fun m' h => ?_⟩
+  simp only [canonSetMax, runC, Option.some.injEq] at h
+  subst h; exact ⟨rfl, rfl, rfl, rfl, rfl⟩
+
+/-- `SetNullValue(x)` as written does not touch the container at all (NONE only selects how "absent" is shown) -/
+theorem canonSetNull_correct (m : LMap K V) (n : Nat) : runC n canonSetNull m = some m := rfl
+
+/-- the plain maps' `SetMax` (IntIntMap) -/
+theorem canonSetMaxP_correct (dp : PDesc K V) (pm : PMap K V) (n : Nat) :
+    (runC n canonSetMax (ofP pm)).map toP = some (PMap.step hash thr dp pm (.setMax n)).1 := by
+  simp [canonSetMax, runC, toP, ofP, PMap.step]
+
 end HMap.IR
